@@ -174,8 +174,9 @@ class Engine:
         return r == z3.sat
 
     # ---- decisions
-    def branch(self, cond):
-        """concrete truth value of `cond` (Python bool or z3 Bool) on this path"""
+    def branch(self, cond, free=False):
+        """concrete truth value of `cond` (Python bool or z3 Bool) on this path.
+        free=True: cond is an unconstrained Boolean input variable (both outcomes feasible)."""
         if cond is True or cond is False:
             return cond
         if not isinstance(cond, z3.BoolRef):
@@ -187,6 +188,10 @@ class Engine:
             return False
         if self.pos < len(self.prefix):
             d = self.prefix[self.pos]
+        elif free:
+            self.work.append(self.prefix[:self.pos] + [False])
+            d = True
+            self.prefix = self.prefix[:self.pos] + [d]
         else:
             t = self.feasible(cond)
             f = self.feasible(z3.Not(cond))
@@ -204,9 +209,11 @@ class Engine:
         self.pc.append(cond if d else z3.Not(cond))
         return d
 
-    def choose(self, expr, lo=None, hi=None):
+    def choose(self, expr, lo=None, hi=None, free=False):
         """concrete value of the integer term `expr` on this path; forks over
-        all feasible values (which must be finitely many: lo <= v < hi if given)."""
+        all feasible values (which must be finitely many: lo <= v < hi if given).
+        free=True: `expr` is an input variable constrained only by lo <= expr < hi; one query
+        establishes that no value outside the range is feasible, and every value inside is explored."""
         if isinstance(expr, int):
             return expr
         expr = z3.simplify(expr)
@@ -214,6 +221,14 @@ class Engine:
             return expr.as_long()
         if self.pos < len(self.prefix):
             d = self.prefix[self.pos]
+        elif free:
+            if self.feasible(z3.Or(expr < lo, expr >= hi)):
+                raise Inconclusive('free variable feasible outside its declared range')
+            vals = list(range(lo, hi))
+            for v in vals[1:]:
+                self.work.append(self.prefix[:self.pos] + [v])
+            d = vals[0]
+            self.prefix = self.prefix[:self.pos] + [d]
         else:
             vals = []
             excl = []
@@ -324,9 +339,11 @@ class Engine:
         return 'unknown', None
 
 
-def branch(cond):
+def branch(cond, free=False):
     if cond is True or cond is False:
         return cond
+    if ENGINE is not None and free:
+        return ENGINE.branch(cond, free=True)
     if ENGINE is None:
         if isinstance(cond, z3.BoolRef):
             c = z3.simplify(cond)
@@ -339,9 +356,11 @@ def branch(cond):
     return ENGINE.branch(cond)
 
 
-def choose(expr, lo=None, hi=None):
+def choose(expr, lo=None, hi=None, free=False):
     if isinstance(expr, int):
         return expr
+    if ENGINE is not None and free:
+        return ENGINE.choose(expr, lo, hi, free=True)
     if ENGINE is None:
         e = z3.simplify(expr)
         if z3.is_int_value(e):
